@@ -456,6 +456,10 @@ impl Engine for ResEngine {
       "when several DIDs fail, which failing DID's error is reported is not constrained (HashSet order); the oracle accepts the error of any failing DID".to_owned(),
     ]
   }
+  fn reproduce_attempts(&self) -> u32 {
+    // the resolver's HashSet order is not behind a seam (see Engine::reproduce_attempts)
+    64
+  }
   fn required_probes(&self, _p: &str, tier: &str) -> Vec<String> {
     let mut v = vec![
       "fault.spurious_wake_handler".to_owned(),
